@@ -1183,6 +1183,10 @@ class Model:
         if intercept_idx != -1:
             common_terms.insert(0, common_terms.pop(intercept_idx))
 
+        # Lower order terms are analysed first, whatever the order they were written in.
+        # Otherwise 'f:g + f' leaves nothing for 'f' once 'f:g' has taken all the subspaces.
+        common_terms.sort(key=lambda term: len(getattr(term, "components", [])))
+
         for term in common_terms:
             if term.kind == "interaction":
                 components[term.name] = {c.name: c.kind for c in term.components}
